@@ -24,6 +24,7 @@ fn main() {
     let only = std::env::var("VERIF_ENGINE").ok();
     let scale: u64 = std::env::var("VERIF_SCALE").ok().and_then(|s| s.parse().ok()).unwrap_or(1);
     let (gc_scenarios, enum_every, heap_runs) = if tier == "thorough" { (600_000 * scale, 40, 40_000_000 * scale) } else { (24_000 * scale, 80, 1_500_000 * scale) };
+    let (gc_scenarios, heap_runs) = (util::runs_override(gc_scenarios), util::runs_override(heap_runs));
     println!("C03 tier={tier} seed={root} workers={workers}");
 
     let corp = corpus::load(&format!("{}/ui-tests", util::REPO_DIR));
@@ -36,6 +37,8 @@ fn main() {
     let heap_wall = t1.elapsed().as_secs_f64();
     println!("sim-heap: {} sequences, {} ops, {} collections, {} violations, {:.1}s", hb.runs, hb.ops, hb.gcs, hb.violations.len(), heap_wall);
 
+    util::dump_hashes("sim-gc", &gb.hashes);
+    util::dump_hashes("sim-heap", &hb.hashes);
     if gb.determinism_mismatches + hb.determinism_mismatches > 0 {
         eprintln!("HARNESS ERROR: determinism sample mismatch (sim-gc {} of {}, sim-heap {} of {})", gb.determinism_mismatches, gb.determinism_reexecuted, hb.determinism_mismatches, hb.determinism_reexecuted);
         std::process::exit(2);
